@@ -3,8 +3,9 @@
 
 The same studies as neutral_matrix.py / seed_matrix.py, but every patch is applied to its own scratch copy of /repo HEAD's
 src/ under /tmp (removed afterwards) and the twenty rule modules are run on that copy through tools/dev_check.py.  /repo is
-never touched, so several patches are examined at once and the registered checks stay usable meanwhile.  (seed_matrix.py
-remains the tool that writes seeded/<name>/meta.json from a run of the real ./check on /repo.)
+never touched, so several patches are examined at once and the registered checks stay usable meanwhile.  (`seeds --write-meta` records the
+result in seeded/<name>/meta.json and prints the table of DESIGN section 10; seed_matrix.py does the same through the real
+./check on a patched /repo and is kept for spot checks.)
 
 neutral: prints `<set>/<patch>: silent` or ALARM with the reporting rules - every alarm is a checker false alarm to fix.
 seeds:   prints which properties' rules report each seeded change - a seed nobody reports is a miss to fix.
@@ -18,7 +19,7 @@ import tempfile
 from concurrent.futures import ThreadPoolExecutor
 
 VERIF = os.path.dirname(os.path.dirname(os.path.abspath(__file__)))
-PROPS = ["C%02d" % i for i in range(1, 21)]
+PROPS = [p for p in os.environ.get("MX_PROPS", "").split(",") if p] or ["C%02d" % i for i in range(1, 21)]      # MX_PROPS=C05,C10 limits the rule modules run
 
 
 def sh(cmd, env=None):
@@ -49,8 +50,38 @@ def run_patch(label, patch):
         shutil.rmtree(d, ignore_errors=True)
 
 
+def _write_meta(name, res):
+    import json
+    sys.path.insert(0, os.path.join(VERIF, "tools"))
+    from seed_matrix import META
+    d = os.path.join(VERIF, "seeded", name)
+    target, needs = META.get(name, (name[:3], ""))
+    hits = {}
+    for p, (rc, rules, broken, lines) in sorted(res.items()):
+        hits[p] = rules if rules else ["ANALYSIS-BROKEN"]
+    confirm = ""
+    cl = os.path.join(d, "confirm.log")
+    if os.path.exists(cl):
+        confirm = open(cl).read().strip().splitlines()[-1]
+    meta = {
+        "seed": name,
+        "breaks_property": target,
+        "needs_to_manifest": needs,
+        "files": {"patch": "patch.diff", "demonstration": "demo/", "seeder_notes": "notes.md"},
+        "confirmed_by": "tools/confirm_seed.sh in a scratch worktree of /repo: demo passes on the unchanged tree, fails with the patch, library builds and the full ctest suite passes with the patch",
+        "confirmation_result": confirm,
+        "detected_by": hits,
+        "detected_by_target_property_check": target in hits and hits[target] != ["ANALYSIS-BROKEN"],
+    }
+    with open(os.path.join(d, "meta.json"), "w") as f:
+        json.dump(meta, f, indent=1)
+    return (name, target, hits)
+
+
 def main():
-    mode, names = sys.argv[1], sys.argv[2:]
+    mode, names = sys.argv[1], [a for a in sys.argv[2:] if a != "--write-meta"]
+    write_meta = "--write-meta" in sys.argv      # seeds mode: record the result in seeded/<name>/meta.json and print the DESIGN table
+    rows = []
     jobs = []
     if mode == "neutral":
         base = os.path.join(VERIF, "neutral")
@@ -87,7 +118,16 @@ def main():
                     bad += 1
                     det = "NOT DETECTED " + det
                 print("%-50s %s -> %s" % (label, target, det))
+                if write_meta and len(PROPS) == 20:
+                    rows.append(_write_meta(label, res))
             sys.stdout.flush()
+    if rows:
+        print()
+        print("| seeded change | property | reported by |")
+        print("|---|---|---|")
+        for (name, target, hits) in rows:
+            print("| `%s` | %s | %s |" % (name, target, "; ".join("%s: %s" % (k, ", ".join(v)) for k, v in hits.items()) or "**not detected**"))
+        print()
     print("done: %d job(s), %d to look at" % (len(jobs), bad))
     return 1 if bad else 0
 
